@@ -6,8 +6,14 @@
 -/
 import Props.C04
 import Props.Family
+import Gen.Guards.Closable
 import Gen.Guards.CompatTrans
+import Gen.Guards.FillersOK
+import Gen.Guards.LabelsOK
+import Gen.Guards.LeafOk
 import Gen.Guards.TextLoop
+import Gen.Guards.TextStableC
+import Gen.Guards.WrapOK
 namespace PM.Family.C04
 open PM
 open PM.C04
@@ -110,5 +116,56 @@ theorem mixedHistory_undo_bmp (S : Schema) (hS : S ∈ familySchemas) (doc : Nod
     tr'.undo S = .ok doc ∧ FamilyInv S tr'.doc :=
   PM.C04.mixedHistory_undo_bmp S (family_compatTrans _ hS) (textLoop_of_B _ (family_textLoop _ hS)) doc ops tr'
     hd hn hb hall h hres
+
+/-- `PM.C04.delete_residual` with its schema guards discharged for the bundled schema family -/
+theorem delete_residual (S : Schema) (hS : S ∈ familySchemas) (hdet : PM.C11.detB S = true) (tr tr1 : Tr)
+    (hlen : tr.steps.length = tr.docs.length) (hv : C01.Valid S tr.doc) (hattrs : S.nodeAttrsOK tr.doc = true)
+    (f t : Nat) (h : tr.runOp S (.replace f t Slice.empty) = some tr1) (hres : DeleteResidual S tr tr1) :
+    OpResidual S (.replace f t Slice.empty) tr tr1 :=
+  PM.C04.delete_residual S hdet (family_leafOk _ hS) tr tr1 hlen hv hattrs f t h hres
+
+/-- `PM.C04.delete_residual_around` with its schema guards discharged for the bundled schema family -/
+theorem delete_residual_around (S : Schema) (hS : S ∈ familySchemas) (hdet : PM.C11.detB S = true) (tr tr1 : Tr)
+    (hlen : tr.steps.length = tr.docs.length) (hv : C01.Valid S tr.doc) (hattrs : S.nodeAttrsOK tr.doc = true)
+    (f t : Nat) (hft : f ≤ t) (h : tr.runOp S (.replace f t Slice.empty) = some tr1)
+    (hres : DeleteResidualAround S tr tr1) :
+    OpResidual S (.replace f t Slice.empty) tr tr1 :=
+  PM.C04.delete_residual_around S hdet (family_fillersOK _ hS) (family_leafOk _ hS) tr tr1 hlen hv hattrs f t
+    hft h hres
+
+/-- `PM.C04.insertInline_residual` with its schema guards discharged for the bundled schema family -/
+theorem insertInline_residual (S : Schema) (hS : S ∈ domFamilySchemas) (hdet : PM.C11.detB S = true)
+    (tr tr1 : Tr) (hlen : tr.steps.length = tr.docs.length) (hv : C01.Valid S tr.doc)
+    (hattrs : S.nodeAttrsOK tr.doc = true) (f t : Nat) (sl : Slice) (hsl : sl.inlineLeaves S = true)
+    (hslv : sl.closedValid S = true) (h : tr.runOp S (.replace f t sl) = some tr1)
+    (hres : DeleteResidual S tr tr1) :
+    OpResidual S (.replace f t sl) tr tr1 :=
+  PM.C04.insertInline_residual S hdet (family_fillersOK _ (domFamily_sub _ hS))
+    (family_wrapOK _ (domFamily_sub _ hS)) (family_labelsOK _ (domFamily_sub _ hS))
+    (family_leafOk _ (domFamily_sub _ hS)) (family_textStableC _ (domFamily_sub _ hS))
+    (family_closable _ (domFamily_sub _ hS)) tr tr1 hlen hv hattrs f t sl hsl hslv h hres
+
+/-- `PM.C04.insertInline_residual_around` with its schema guards discharged for the bundled schema family -/
+theorem insertInline_residual_around (S : Schema) (hS : S ∈ domFamilySchemas) (hdet : PM.C11.detB S = true)
+    (tr tr1 : Tr) (hlen : tr.steps.length = tr.docs.length) (hv : C01.Valid S tr.doc)
+    (hattrs : S.nodeAttrsOK tr.doc = true) (f t : Nat) (hft : f ≤ t) (sl : Slice)
+    (hsl : sl.inlineLeaves S = true) (hslv : sl.closedValid S = true)
+    (h : tr.runOp S (.replace f t sl) = some tr1) (hres : InsertInlineResidualAround S tr tr1) :
+    OpResidual S (.replace f t sl) tr tr1 :=
+  PM.C04.insertInline_residual_around S hdet (family_fillersOK _ (domFamily_sub _ hS))
+    (family_wrapOK _ (domFamily_sub _ hS)) (family_labelsOK _ (domFamily_sub _ hS))
+    (family_leafOk _ (domFamily_sub _ hS)) (family_textStableC _ (domFamily_sub _ hS))
+    (family_closable _ (domFamily_sub _ hS)) tr tr1 hlen hv hattrs f t hft sl hsl hslv h hres
+
+/-- `PM.C04.replace_residual_of_inv` with its schema guards discharged for the bundled schema family -/
+theorem replace_residual_of_inv (S : Schema) (hS : S ∈ domFamilySchemas) (hdet : PM.C11.detB S = true)
+    (tr tr1 : Tr) (hlen : tr.steps.length = tr.docs.length) (hattrs : S.nodeAttrsOK tr.doc = true) (f t : Nat)
+    (sl : Slice) (hslv : openValid S sl.openStart sl.openEnd sl.content = true)
+    (hend : fitEndInv S tr.doc f t sl ≠ some false) (h : tr.runOp S (.replace f t sl) = some tr1)
+    (hres : DeleteResidual S tr tr1) :
+    OpResidual S (.replace f t sl) tr tr1 :=
+  PM.C04.replace_residual_of_inv S hdet (family_fillersOK _ (domFamily_sub _ hS))
+    (family_leafOk _ (domFamily_sub _ hS)) (family_textStableC _ (domFamily_sub _ hS))
+    (family_closable _ (domFamily_sub _ hS)) tr tr1 hlen hattrs f t sl hslv hend h hres
 
 end PM.Family.C04
